@@ -329,11 +329,27 @@ pub fn c14(rep: &mut Report, n: usize, seed: u64) {
     for pat in ["(.)A\\1.*X", "(.)\\1+", "(?:(.)A\\1.*)*Z", "(..)\\1", "(.)(?<=\\1.)", "(.).*\\1", "(?<=(.))A\\1*", "(.)\\1.*?$", "(?:(.)\\1?)+A", "(.)A(?!\\1.)"] {
         for fs in ["", "u", "i", "iu"] {
             let Ok(re) = compile(pat, fs, false) else { continue };
+            let ir16 = regress::verif::dump_ir_canon(pat.chars().map(|ch| ch as u32), make_flags(fs, false)).ok().map(|s| s.replace(' ', "~"));
             for units in arrays.iter() {
                 for start in 0..=units.len() {
                     for ucs2 in [false, true] {
                         done += 1;
                         rep.count("illformed-u16");
+                        // the UTF-16 semantics model answers the same question (a third of the family)
+                        if let (Some(ir), true) = (&ir16, (units.len() + start) % 3 == 0) {
+                            regress::verif::fuel::reset(1_000_000);
+                            let r = guarded(std::panic::AssertUnwindSafe(|| if ucs2 { re.find_from_ucs2(units, start).next() } else { re.find_from_utf16(units, start).next() }));
+                            let (_, _, ex) = regress::verif::fuel::report();
+                            regress::verif::fuel::reset(u64::MAX);
+                            let reply = match r {
+                                Err(_) => "panic".to_string(),
+                                Ok(_) if ex => "fuel".to_string(),
+                                Ok(None) => "none".to_string(),
+                                Ok(Some(m)) => format!("m {}", fmt_matches(&[m])),
+                            };
+                            let hex = if units.is_empty() { "-".to_string() } else { units.iter().map(|u| format!("{:04x}", u)).collect::<String>() };
+                            rep.tie(format!("{} {} {} {} {}", if ucs2 { "semfind16ucs2" } else { "semfind16" }, if fs.is_empty() { "-" } else { fs }, ir, hex, start), reply);
+                        }
                         let label = format!("/{}/{} on u16 {:x?} from {} ({})", pat, fs, units, start, if ucs2 { "ucs2" } else { "utf16" });
                         regress::verif::fuel::reset(1_000_000);
                         let r = guarded(std::panic::AssertUnwindSafe(|| {
